@@ -20,6 +20,7 @@ structure SimRes where
   brk : List Pt := []
   cont : List Pt := []
   rets : List (Pt × CS) := []
+deriving Inhabited
 
 def addAll {α} [BEq α] (a b : List α) : List α := a.foldl (fun acc x => if acc.contains x then acc else acc ++ [x]) b
 
@@ -36,6 +37,9 @@ def tokOf (s : St) : Ev → Option (List String)
     | _ => some ["C", "C0"]
   | _ => none
 
+def lookup (name : String) : Option (List String × Cfg) :=
+  (Bee2V.Gen.CfgAll.all.find? fun x => x.1 == name).map fun x => (x.2.2.1, x.2.2.2)
+
 def stepEv (p : Pt) (e : Ev) : List Pt :=
   match tokOf p.1 e with
   | none => [(p.1.apply e, p.2)]
@@ -51,50 +55,64 @@ def iterSim (f : List Pt → SimRes) : Nat → List Pt → List Pt
     let S' := addAll (addAll r.norm r.cont) S
     if S'.length == S.length then S else iterSim f n S'
 
-def sim : Cfg → List Pt → SimRes
+/-- nondeterministic simulation against the observed token list.  A callee that has a skeleton
+may have been inlined by the compiler (its blob events are then attributed to the caller):
+`depth` levels of callees are optionally expanded. -/
+partial def sim (depth : Nat) (calls : List String) : Cfg → List Pt → SimRes
   | .skip, S => { norm := S }
   | .brk, S => { brk := S }
   | .cont, S => { cont := S }
   | .ret r, S => { rets := S.map fun p => (p, r.eval p.1) }
-  | .atom es, S => { norm := addAll (S.flatMap fun p => es.flatMap (stepEv p)) [] }
+  | .atom es, S =>
+    { norm := addAll (S.flatMap fun p => es.flatMap fun e =>
+        match e with
+        | .call k =>
+          let plain := [(p.1.apply e, p.2)]
+          if depth == 0 then plain else
+          match calls[k]? >>= lookup with
+          | none => plain
+          | some (cc, c) =>
+            let r := sim (depth - 1) cc c [(St.init, p.2)]
+            plain ++ r.rets.map fun q => (p.1.apply e, q.1.2)
+        | _ => stepEv p e) [] }
   | .seq a b, S =>
-    let ra := sim a S
-    let rb := sim b ra.norm
+    let ra := sim depth calls a S
+    let rb := sim depth calls b ra.norm
     { norm := rb.norm, brk := addAll ra.brk rb.brk, cont := addAll ra.cont rb.cont, rets := ra.rets ++ rb.rets }
   | .ite _ t e, S =>
-    let rt := sim t S
-    let re := sim e S
+    let rt := sim depth calls t S
+    let re := sim depth calls e S
     { norm := addAll rt.norm re.norm, brk := addAll rt.brk re.brk, cont := addAll rt.cont re.cont, rets := rt.rets ++ re.rets }
   | .ifnull v t e, S =>
-    let rt := sim t (S.filter fun p => p.1.st v != .live && p.1.st v != .closed)
-    let re := sim e (S.filter fun p => p.1.st v != .null)
+    let rt := sim depth calls t (S.filter fun p => p.1.st v != .live && p.1.st v != .closed)
+    let re := sim depth calls e (S.filter fun p => p.1.st v != .null)
     { norm := addAll rt.norm re.norm, brk := addAll rt.brk re.brk, cont := addAll rt.cont re.cont, rets := rt.rets ++ re.rets }
   | .ifcode t e, S =>
-    let rt := sim t ((S.filter fun p => p.1.code != .ok).map fun p => (p.1.apply (.code .bad), p.2))
-    let re := sim e ((S.filter fun p => p.1.code != .bad).map fun p => (p.1.apply (.code .ok), p.2))
+    let rt := sim depth calls t ((S.filter fun p => p.1.code != .ok).map fun p => (p.1.apply (.code .bad), p.2))
+    let re := sim depth calls e ((S.filter fun p => p.1.code != .bad).map fun p => (p.1.apply (.code .ok), p.2))
     { norm := addAll rt.norm re.norm, brk := addAll rt.brk re.brk, cont := addAll rt.cont re.cont, rets := rt.rets ++ re.rets }
   | .blk b, S =>
-    let r := sim b S
+    let r := sim depth calls b S
     { r with norm := addAll r.norm r.cont, cont := [] }
   | .loop b, S =>
-    let F := iterSim (sim b) 64 S
-    let r := sim b F
+    let F := iterSim (sim depth calls b) 64 S
+    let r := sim depth calls b F
     { norm := addAll F r.brk, rets := r.rets }
 
-def hasPath (c : Cfg) (okRes : Bool) (toks : List String) : Bool :=
-  (sim c [(St.init, toks)]).rets.any fun (p, r) =>
+def hasPath (depth : Nat) (calls : List String) (c : Cfg) (okRes : Bool) (toks : List String) : Bool :=
+  (sim depth calls c [(St.init, toks)]).rets.any fun (p, r) =>
     p.2.isEmpty && (r == .unk || (okRes && r == .ok) || (!okRes && r == .bad))
 
-def cfgOf (name : String) : Option Cfg :=
-  (Bee2V.Gen.CfgAll.all.find? fun x => x.1 == name).map fun x => x.2.2.2
-
+/-- `path f ok|bad toks` -> yes (a path of the skeleton itself) | yes-inlined (with callees
+expanded) | no -/
 def handlePath : List String → String
   | [name, res, toks] =>
-    match cfgOf name with
+    match lookup name with
     | none => "unknown-function"
-    | some c =>
+    | some (calls, c) =>
       let ts := if toks == "-" then [] else toks.splitOn ","
-      if hasPath c (res == "ok") ts then "yes" else "no"
+      if hasPath 0 calls c (res == "ok") ts then "yes"
+      else if hasPath 2 calls c (res == "ok") ts then "yes-inlined" else "no"
   | _ => "bad-op"
 
 open Blob in
@@ -112,7 +130,7 @@ def handleWipe : List String → String
       | (_, blk) :: _ =>
         let hdr := blk.take 8 == szb
         let fill := (List.range (blk.length - 7)).any fun i => (blk.drop i).take 8 == List.replicate 8 (0x5A : UInt8)
-        s!"len={blk.length} header_intact={if hdr then 1 else 0} fill_left={if fill then 1 else 0} deltas={toHex ((deltas blk).take 47)}"
+        s!"len={blk.length} header_intact={if hdr then 1 else 0} fill_left={if fill then 1 else 0} deltas={toHex (deltas blk)}"
       | [] => "not-released"
     | _, _, _ => "bad-op"
   | _ => "bad-op"
